@@ -11,7 +11,7 @@ import os
 import re
 import subprocess
 
-from bridgegen import Prim, EnumT, StructT, Opt
+from bridgegen import Prim, EnumT, StructT, Opt, OpaqueRef
 
 PRIM_W32 = {"i8": (1, 1), "u8": (1, 1), "DiplomatByte": (1, 1), "bool": (1, 1), "i16": (2, 2), "u16": (2, 2), "i32": (4, 4), "u32": (4, 4),
             "DiplomatChar": (4, 4), "f32": (4, 4), "isize": (4, 4), "usize": (4, 4), "i64": (8, 8), "u64": (8, 8), "f64": (8, 8)}
@@ -35,6 +35,8 @@ class Ref:
             return PRIM_W32[t.name]
         if isinstance(t, EnumT):
             return (4, 4)
+        if isinstance(t, OpaqueRef):
+            return (4, 4)      # wasm32 pointer
         if isinstance(t, StructT):
             return self.struct(t.name)[:2]
         if isinstance(t, Opt):
@@ -71,6 +73,8 @@ class Ref:
                     out += self.leaves(t.inner.name, base + off, path + ".", opt + (path + "?",))
                 else:
                     out.append((path, "enum" if isinstance(t.inner, EnumT) else "prim", t.inner, base + off, inner_s))
+            elif isinstance(t, OpaqueRef):
+                out.append((path, "ptr", t, base + off, 4))
             else:
                 out.append((path, "enum" if isinstance(t, EnumT) else "prim", t, base + off, s))
         return out
@@ -159,7 +163,7 @@ class Ref:
                     elif v is True or v is False:
                         img[off - base] = 1 if v else 0
                     else:
-                        iv = int(v[1:]) if isinstance(v, str) else int(v)
+                        iv = int(v[4:]) if isinstance(v, str) and v.startswith("ptr:") else int(v[1:]) if isinstance(v, str) else int(v)
                         img[off - base:off - base + w] = (iv % (1 << (8 * w))).to_bytes(w, "little")
                 val = int.from_bytes(img[k * align:(k + 1) * align], "little")
                 out.append(("n%d" % val) if align == 8 else val)
@@ -174,6 +178,8 @@ def spec_from_module(mod, opaque):
             return {"name": name, "kind": "enum", "ty": t.name, "variants": [[n, v] for n, v in mod.enums[t.name].values()]}
         if isinstance(t, StructT):
             return {"name": name, "kind": "struct", "ty": t.name}
+        if isinstance(t, OpaqueRef):
+            return {"name": name, "kind": "opaque", "ty": t.name, "optional": bool(t.optional)}
         if isinstance(t, Opt):
             return {"name": name, "kind": "opt", "inner": fdesc(name, t.inner)}
         raise ValueError(t)
@@ -213,6 +219,8 @@ def le_bytes(tok, width):
         return list(int(tok[8:], 16).to_bytes(8, "little"))
     if tok == "true":
         return [1]
+    if isinstance(tok, str) and tok.startswith("ptr:"):
+        return list(int(tok[4:]).to_bytes(4, "little"))
     v = int(tok[1:]) if isinstance(tok, str) and tok.startswith("n") else int(tok)
     return list((v % (1 << (8 * width))).to_bytes(width, "little"))
 
@@ -261,6 +269,8 @@ def compare(mod, ref, data, abi="legacy"):
                         continue
                     img = le_bytes(pr["value"], w)
                     exp_changed = [off + i for i in range(w) if img[i] != 0]
+                    if kind == "ptr" and pr["value"] == "ptr:0":
+                        continue
                     exp_bytes = [b for b in img if b != 0]
                     if pr["changed"] != exp_changed or pr["bytes"] != exp_bytes:
                         out.append((sname, "write: leaf %s (%s) = %s should occupy bytes %d..%d with image %r; emitted code changes bytes %r to %r"
@@ -277,6 +287,14 @@ def compare(mod, ref, data, abi="legacy"):
                     if rd["enumReads"].get(vn) != [off]:
                         out.append((sname, "read: a discriminant of %s::%s stored at offset %d should read back as that variant from exactly that offset; emitted code recognises it at offsets %r"
                                     % (t.name, vn, off, rd["enumReads"].get(vn))))
+                continue
+            if kind == "ptr":
+                if rd["dep"] != rng:
+                    out.append((sname, "read: pointer leaf %s should be read from bytes %d..%d; emitted code depends on %r" % (path, off, off + 3, rd["dep"])))
+                elif rd["ones"] != "ptr:4294967295" or rd["pat"] != "ptr:%d" % 0x44332211:
+                    out.append((sname, "read: pointer leaf %s with bytes FF.. / 11 22 33 44 should read 4294967295 / %d; emitted code reads %r / %r" % (path, 0x44332211, rd["ones"], rd["pat"])))
+                if t.optional and rd["zero"] is not None:
+                    out.append((sname, "read: an all-zero optional pointer %s should read as null; emitted code reads %r" % (path, rd["zero"])))
                 continue
             name = t.name
             if name == "bool":
@@ -344,7 +362,7 @@ def compare(mod, ref, data, abi="legacy"):
                 elif v is True or v is False:
                     b = bytes([1 if v else 0])
                 else:
-                    iv = int(v[1:]) if isinstance(v, str) else int(v)
+                    iv = 0 if v is None else int(v[1:]) if isinstance(v, str) else int(v)
                     b = (iv % (1 << (8 * w))).to_bytes(w, "little")
                 for i_, bb in enumerate(b):
                     exp[off + i_] = bb
@@ -371,6 +389,8 @@ def layout_harness(mod, ref):
             return MIRROR_TY.get(t.name, t.name)
         if isinstance(t, EnumT):
             return "i32"
+        if isinstance(t, OpaqueRef):
+            return "u32"
         if isinstance(t, StructT):
             return t.name
         if isinstance(t, Opt):
